@@ -24,7 +24,7 @@ impl Prop for C10 {
     type Case = Case;
     const ID: &'static str = "C10";
     const NUM: u64 = 10;
-    const RULE: &'static str = "AdjacencyMap digraphs with vertex set 0..order: enum leg = every digraph of order <=4 (quick) / <=5 (thorough, 2^20 digraphs of order 5); random leg = order 1..7 (uniform densities, 15 structured families incl. complete digraphs, cycles, two circuits joined by an arc), plus 'dense core + tails'. Non-trivial = at least 3 circuits and two circuits that share a vertex other than their own start vertices; distinct = distinct serialised case.";
+    const RULE: &'static str = "AdjacencyMap digraphs with vertex set 0..order: enum leg = every digraph of order <=4 (quick) / <=5 (thorough, 2^20 digraphs of order 5); random leg = order 1..7 (uniform densities, 15 structured families incl. complete digraphs, cycles, two circuits joined by an arc), plus 'dense core + tails' and subdivisions (a dense core of 3..5 vertices whose arcs are replaced by chains of degree-(1,1) vertices, randomly relabelled, order <= 12). Non-trivial = at least 3 circuits and two circuits that share a vertex other than their own start vertices; distinct = distinct serialised case.";
     const ASSUMPTIONS: &'static [&'static str] = &[
         "the order of the returned list is free (compared as a set after a no-duplicates check)",
         "order is capped at 7: the brute-force reference is exponential (K7 has 2365 circuits)",
@@ -36,7 +36,7 @@ impl Prop for C10 {
             Leg {
                 name: "random",
                 kind: LegKind::Random {
-                    cases: tier.pick(40000, 200000),
+                    cases: tier.pick(160000, 1200000),
                 },
                 workers: 16,
                 build: Build::Normal,
@@ -82,6 +82,43 @@ impl Prop for C10 {
         }
         prop_oneof![
             4 => gen::digraph_labeled(7).prop_map(|(g, family)| Case { g, family }),
+            // subdivisions: a small dense core whose arcs are replaced by chains of
+            // vertices with exactly one in-arc and one out-arc, under a random relabelling
+            // (few circuits, long ones, many degree-(1,1) start vertices)
+            4 => (
+                3..=5_usize,
+                proptest::collection::vec((any::<u16>(), any::<u16>()), 4..=14),
+                proptest::collection::vec(0..3_u8, 14),
+                proptest::collection::vec(any::<u16>(), 16),
+            )
+                .prop_map(|(k, core, subdiv, perm_raw)| {
+                    let mut arcs: BTreeSet<(usize, usize)> = BTreeSet::new();
+                    for &p in &core {
+                        arcs.insert(gen::arc_of(p, k));
+                    }
+                    let mut n = k;
+                    let mut out: Vec<(usize, usize)> = vec![];
+                    for (i, &(u, v)) in arcs.iter().enumerate() {
+                        let extra = (subdiv[i % subdiv.len()] as usize).min(12_usize.saturating_sub(n));
+                        let mut prev = u;
+                        for _ in 0..extra {
+                            out.push((prev, n));
+                            prev = n;
+                            n += 1;
+                        }
+                        out.push((prev, v));
+                    }
+                    // random relabelling
+                    let mut label: Vec<usize> = (0..n).collect();
+                    for i in (1..n).rev() {
+                        let j = gen::idx(perm_raw[i % perm_raw.len()], i + 1);
+                        label.swap(i, j);
+                    }
+                    let mut relabelled: Vec<(usize, usize)> = out.iter().map(|&(u, v)| (label[u], label[v])).collect();
+                    relabelled.sort_unstable();
+                    relabelled.dedup();
+                    Case { g: Dg { order: n, arcs: relabelled }, family: "subdivision".into() }
+                }),
             // dense core on the first k vertices + sparse tails
             1 => (4..=7_usize, 2..=4_usize, proptest::collection::vec((any::<u16>(), any::<u16>()), 0..6), any::<u16>())
                 .prop_map(|(n, k, tails, drop)| {
